@@ -863,3 +863,55 @@ def run_cmp_orientation(P, rep, rule="R-ORIENT"):
             rep.ok(rule, site, P.where(fn, t["line"]), "operand origin not resolved (receiver %s, argument %s): not decided" % (sorted(sr), sorted(sa)))
         else:
             rep.ok(rule, site, P.where(fn, t["line"]), "receiver derives from %s, argument from %s (1 = lhs, 2 = rhs)%s" % (sorted(sr), sorted(sa), ", reversed" if rev else ""))
+
+
+# ---------------------------------------------------------------------------------------
+# R-NOIDENT: comparisons look at values, never at addresses
+
+def run_no_identity(P, rep, rule="R-NOIDENT"):
+    """value_eq, value_cmp, scalar_eq, scalar_cmp and every PartialEq/PartialOrd impl of the model types: no pointer identity test
+    (ptr::eq, ptr::addr_eq, Arc/Rc::ptr_eq), no reference-to-raw-pointer conversion, no pointer-to-integer cast — the outcome of a
+    comparison must not depend on whether the two operands happen to be the same object."""
+    from origins import SelfOrigins
+    roots = [P.fn_by_key(k) for k in CORE_FNS.values()]
+    for im in P.impls_of("core::cmp::PartialEq") + P.impls_of("core::cmp::PartialOrd"):
+        if im["crate"] != "liquid_core":
+            continue
+        for it in im["items"]:
+            if it.get("is_fn") and it["id"] in P.fns:
+                roots.append(P.fns[it["id"]])
+    n = 0
+    bad = []
+    seen = set()
+    for root in roots:
+        for fn, _ in SelfOrigins(P, root, seed={}).all_bodies():
+            if fn.id in seen:
+                continue
+            seen.add(fn.id)
+            n += 1
+            for bi, t in P.calls(fn):
+                f = t.get("f")
+                if not f:
+                    continue
+                nm = f["name"]
+                last = f["id"].rsplit("::", 1)[1]
+                if last in ("ptr_eq", "addr_eq") or nm.endswith("ptr::eq") or nm.endswith("ptr::addr_eq") or last in ("as_ptr", "addr", "expose_provenance"):
+                    bad.append((fn, t["line"], nm))
+            for b in fn.blocks:
+                for st in b["s"]:
+                    if st[0] != "a":
+                        continue
+                    rv = st[2]
+                    if rv["k"] == "rawptr" and not fn.expn:
+                        bad.append((fn, st[3] if len(st) > 3 else fn.line, "&raw / `as *const _`"))
+                    elif rv["k"] == "cast" and ("PointerExposeProvenance" in rv["ck"] or "PointerExposeAddress" in rv["ck"]):
+                        bad.append((fn, st[3] if len(st) > 3 else fn.line, "pointer-to-integer cast"))
+    if bad:
+        k = 0
+        for fn, line, what in bad[:6]:
+            rep.viol(rule, "%s %s#%d" % (fn.key, what.rsplit("::", 1)[-1], k), P.where(fn, line),
+                     "a comparison function inspects object identity (%s): comparing a value with itself and with an equal copy can differ" % what)
+            k += 1
+    else:
+        rep.ok(rule, "comparison bodies", "-", "%d comparison bodies (core functions, PartialEq/PartialOrd impls, their closures): none looks at addresses" % n)
+    rep.count(rule + ".bodies", n)
